@@ -11,6 +11,7 @@ Import ListNotations.
    request is followed by exactly one response before anything of the next request happens, and a
    request that gets no response is followed by Close and nothing else *)
 Theorem C07_trace_shape : forall T K c input script,
+  c_tls c = None ->
   match c_sess_auth c with
   | Some false => session T K c input script = [ESessAuth false; EClose CloseError]
   | Some true => exists t, session T K c input script = ESessAuth true :: t /\ trace_ok c t
